@@ -443,16 +443,17 @@ fn to_string_moved(
             let mut first_row = true;
             let mut matrix_string = String::new();
 
-            // Each element in `args` is assumed to be one "row" (itself a `Vec<T>`).
+            // Rows are separated by ';' (or '\\' in locales with a decimal comma), the elements
+            // of a row by ',' (or ';'): the same text `stringify` produces and the parser reads
             let row_separator = if locale.numbers.symbols.decimal == "." {
                 ';'
             } else {
-                '/'
+                '\\'
             };
             let col_separator = if row_separator == ';' { ',' } else { ';' };
             for row in args {
                 if !first_row {
-                    matrix_string.push(col_separator);
+                    matrix_string.push(row_separator);
                 } else {
                     first_row = false;
                 }
@@ -462,7 +463,7 @@ fn to_string_moved(
                 let mut row_string = String::new();
                 for el in row {
                     if !first_col {
-                        row_string.push(row_separator);
+                        row_string.push(col_separator);
                     } else {
                         first_col = false;
                     }
@@ -470,11 +471,7 @@ fn to_string_moved(
                     // Reuse your existing element-stringification function
                     row_string.push_str(&to_string_array_node(el, locale, language));
                 }
-
-                // Enclose the row in braces
-                matrix_string.push('{');
                 matrix_string.push_str(&row_string);
-                matrix_string.push('}');
             }
 
             // Enclose the whole matrix in braces
